@@ -217,7 +217,7 @@ pub fn check_history(h: &Hist) -> Result<(bool, Vec<&'static str>), Failure> {
 
 pub fn case(t: &mut Tape, ctx: &CaseCtx) -> CaseResult {
     let nl = 1 + t.choose(3);
-    let lives: Vec<LifePlan> = (0..nl).map(|_| LifePlan { oneshot: t.chance(1, 8), checks: 1 + t.choose(3), crash_at: if t.chance(1, 4) { Some(1 + t.choose(150)) } else { None } }).collect();
+    let lives: Vec<LifePlan> = (0..nl).map(|_| LifePlan { oneshot: t.chance(1, 8), checks: 1 + t.choose(3), crash_at: if t.chance(1, 4) { Some(1 + t.choose(150)) } else { None }, wall_at_start: None }).collect();
     let mut script = gen_script(t, &profile());
     if t.chance(1, 3) {
         script.reboot_needed = vec![true; 3];
